@@ -107,6 +107,38 @@ pub fn k_storage_keyed_6() {
 }
 #[kani::proof]
 #[kani::unwind(8)]
+pub fn k_storage_cross_3() {
+    let raw: [u8; storage::RAW] = kani::any();
+    let code = storage::scenario::<storage::Cross>(&raw, 3);
+    kani::cover!(code == 0);
+    assert!(code <= 1);
+}
+#[kani::proof]
+#[kani::unwind(8)]
+pub fn k_storage_cross_4() {
+    let raw: [u8; storage::RAW] = kani::any();
+    let code = storage::scenario::<storage::Cross>(&raw, 4);
+    kani::cover!(code == 0);
+    assert!(code <= 1);
+}
+#[kani::proof]
+#[kani::unwind(8)]
+pub fn k_storage_cross_5() {
+    let raw: [u8; storage::RAW] = kani::any();
+    let code = storage::scenario::<storage::Cross>(&raw, 5);
+    kani::cover!(code == 0);
+    assert!(code <= 1);
+}
+#[kani::proof]
+#[kani::unwind(8)]
+pub fn k_storage_cross_6() {
+    let raw: [u8; storage::RAW] = kani::any();
+    let code = storage::scenario::<storage::Cross>(&raw, 6);
+    kani::cover!(code == 0);
+    assert!(code <= 1);
+}
+#[kani::proof]
+#[kani::unwind(8)]
 pub fn k_storage_odd_3() {
     let raw: [u8; storage::RAW] = kani::any();
     let code = storage::scenario::<storage::Odd>(&raw, 3);
